@@ -127,7 +127,7 @@ def merge_pair(path_a, path_b, out):
             ea = la[i] if i < len(la) else {"a": "missing"}
             eb = lb[i] if i < len(lb) else {"a": "missing"}
             if ea.get("a") == "reset" and eb.get("a") == "reset":
-                fh.write(json.dumps({"a": "reset", "post": {}}) + "\n")
+                fh.write(json.dumps({"a": "reset", "post": {}, "x": ea.get("x", {})}) + "\n")
                 continue
             a = ea.get("a") if ea.get("a") in ("tx", "block") else "tx"
             fh.write(json.dumps({"a": a, "A": {k: v for k, v in ea.items() if k not in ("post",)},
@@ -135,7 +135,7 @@ def merge_pair(path_a, path_b, out):
     return out
 
 
-def run_vh(vh, family, work, tag, scenarios, nrand, rlen, seed, cfg, env=None):
+def run_vh(vh, family, work, tag, scenarios, nrand, rlen, seed, cfg, env=None, idx=0):
     """Runs the harness on a list of scenarios plus nrand random histories; returns trace path and stats."""
     scn = os.path.join(work, f"scn-{tag}.jsonl")
     with open(scn, "w") as fh:
@@ -143,7 +143,7 @@ def run_vh(vh, family, work, tag, scenarios, nrand, rlen, seed, cfg, env=None):
             fh.write(json.dumps(s) + "\n")
     out = os.path.join(work, f"trace-{tag}.ndjson")
     cmd = [vh, family, "-seed", str(seed), "-out", out, "-scn", scn, "-random", str(nrand), "-len", str(rlen),
-           "-cfg", json.dumps(cfg)]
+           "-cfg", json.dumps(cfg), "-idx", str(idx)]
     e = dict(os.environ)
     e.update(env or {})
     p = subprocess.run(cmd, stdout=subprocess.PIPE, stderr=subprocess.PIPE, text=True, timeout=3600, env=e)
@@ -187,6 +187,15 @@ def validate_trace(work, tag, module, cfg_name, trace_path, timeout=1800, extra_
 def load_lines(path):
     with open(path) as fh:
         return [json.loads(x) for x in fh if x.strip()]
+
+
+def scenario_origin(lines, l):
+    """(seed, idx) of the scenario containing 1-based trace line l, as recorded by the harness in its reset line."""
+    start = l - 1
+    while start > 0 and lines[start].get("a") != "reset":
+        start -= 1
+    x = lines[start].get("x") or lines[start].get("A", {}).get("x") or {}
+    return x.get("seed"), x.get("idx"), x.get("rlen", l - 1 - start)
 
 
 def scenario_of(lines, l):
